@@ -199,7 +199,7 @@ def run(prog, rep):
         for t in tests:
             tcan = canon(t.ast)
             rhs = tcan.comparators[0]
-            txt = ast.unparse(rhs)
+            txt = ast.unparse(expand(rhs, local_env(fn)))
             ok_scope = scope in txt
             if not ok_scope and isinstance(rhs, ast.Name):
                 env4 = {k_: v_ for k_, v_ in local_env(fn).items() if k_ != rhs.id}
